@@ -275,3 +275,47 @@ def table():
 def all_contracts(tier):
     cs = [construct_mapping_contract(), ub_min_distortion_contract(), find_ub_contract(), find_lb_contract(), estimate_contract()]
     return cs, table()
+
+
+# ----------------------------------------------------------------------------- helper purity (frame) : check_assignment_feasibility
+def feasibility_contract():
+    """the greedy assignment test works on private copies: it returns a bool and never writes into the two distributions it is handed
+    (their rows are reused by the caller for every candidate); index accesses stay in range"""
+    def make_args(eng):
+        n = eng.fresh_int("len_v", lo=1)
+        m = eng.fresh_int("len_u", lo=1)
+        v = fresh_symbolic("v_distribution", (n,), dtype="int", origin="param:v_distribution", eng=eng)
+        u = fresh_symbolic("u_distribution", (m,), dtype="int", origin="param:u_distribution", eng=eng)
+        d = eng.fresh_int("d", lo=1)
+        return {"v_distribution": v, "u_distribution": u, "d": d}, {"n": n, "m": m}
+
+    def inv(st):
+        g = st.g
+        i, j = st.i, st.j
+        out = [("copies_have_the_argument_lengths", b_and(lift(st.reversed_v_distribution.shape[0]) == g["n"], lift(st.reversed_u_distribution.shape[0]) == g["m"]), "S")]
+        if i is not None:
+            out.append(("i_in_range", b_and(lift(i) >= 0, lift(i) < g["n"]), "S"))
+        if j is not None:
+            out.append(("j_in_range", b_and(lift(j) >= 0, lift(j) < g["m"]), "S"))
+        return out
+
+    def havoc_idx(name, bound):
+        def f(st):
+            e = st.eng
+            if e.decide(name + "_none"):
+                return None
+            return e.fresh_int(name)
+        return f
+
+    def ensures(a, res):
+        return [("returns_a_truth_value", isinstance(res, (bool, BoolV)), "P")]
+    return Contract(MOD, "check_assignment_feasibility", make_args, ensures=ensures, definedness="P",
+                    loops={0: LoopContract("while i is not None and j is not None", inv, cls="S", havoc={"i": havoc_idx("i", "n"), "j": havoc_idx("j", "m")})})
+
+
+_all_prev = all_contracts
+
+
+def all_contracts(tier):     # noqa: F811
+    cs, t = _all_prev(tier)
+    return cs + [feasibility_contract()], t
